@@ -14,12 +14,13 @@ import bisect
 import copy
 import itertools
 
+import lib
 from lib import Err
 
 ID = "C19"
 COQ_IMPORTS = "From DV Require Import Model.BTreeM Model.BTreeStoreM."
 COQ_RUN = "BTreeStoreM.run"
-CASE_TIMEOUT = 120.0
+CASE_TIMEOUT = 60.0
 TRUSTED = [
     "model: coq/Model/BTreeM.v (value-level _Node/BTree/Cursor algorithms) and coq/Model/BTreeStoreM.v (node store with creator tags) if present",
     "harness/pC19.py reference dictionary (oracle) and node walker",
@@ -433,7 +434,12 @@ def oracle(ctx, kind, case, out):
     if case[0] == 30:
         return []
     n = len(case)
-    return check_history(case, deep_every=1 if n < 400 else 7)
+    if isinstance(out, Err) and out.code == -2:
+        return []  # lib reports the hang itself
+    try:
+        return lib.with_watchdog(check_history, case, 1 if n < 400 else 7, seconds=CASE_TIMEOUT)
+    except lib.Hang:
+        return [{"kind": "hist:hang", "what": "implementation did not terminate while the history was replayed", "sig": "hang"}]
 
 
 # ------------------------------------------------------------------ generators
@@ -514,6 +520,11 @@ class Gen:
     def read(self, ti):
         r = self.rng.random()
         k = self.key()
+        if len(self.trees[ti]["keys"]) > 700:
+            r = r * 0.75  # no full listings of big trees (literal size)
+            if self.set_kind:
+                self.ops.append([SIN, ti, k])
+                return
         if self.set_kind:
             self.ops.append(self.rng.choice([[SIN, ti, k], [LEN, ti], [ITER, ti]]))
         elif r < 0.4:
@@ -614,7 +625,10 @@ def gen_history(rng, t, nops, keyspace, set_kind=False, cursors=True, clones=Tru
             for ci in new:
                 for _ in range(rng.randrange(1, 6)):
                     (g.insert if rng.random() < 0.5 else g.delete)(ci)
-            g.ops.append([ITEMS if not set_kind else ITER, src])
+            if len(g.trees[src]["keys"]) <= 700:
+                g.ops.append([ITEMS if not set_kind else ITER, src])
+            else:
+                g.ops.append([LEN, src])
         elif r < pins + pdel + 0.19:
             # malformed / rejected calls
             q = rng.random()
@@ -634,7 +648,8 @@ def gen_history(rng, t, nops, keyspace, set_kind=False, cursors=True, clones=Tru
             g.dump(ti)
     for ti in range(len(g.trees)):
         g.dump(ti)
-        g.ops.append([ITER if set_kind else ITEMS, ti])
+        if len(g.trees[ti]["keys"]) <= 700:
+            g.ops.append([ITER if set_kind else ITEMS, ti])
         g.ops.append([LEN, ti])
     return g.case()
 
@@ -671,9 +686,9 @@ def bfs_states(t, nkeys, in_order_modes=(0, 1), max_states=None):
                 cand = [[INS, 0, k, k + 1, io] for io in in_order_modes] + [[DEL, 0, k]]
                 for op in cand:
                     try:
-                        tr = replay(path + [op])
+                        tr = lib.with_watchdog(replay, path + [op], seconds=5.0)
                         d = repr(dump_node(tr.root))
-                    except Exception:  # noqa - the history is still emitted; the oracle reports it
+                    except (Exception, lib.Hang):  # noqa - the history is still emitted; the oracle reports it
                         states["crash:" + repr(path + [op])] = path + [op]
                         continue
                     if d not in states:
@@ -685,7 +700,7 @@ def bfs_states(t, nkeys, in_order_modes=(0, 1), max_states=None):
     return states
 
 
-def exhaustive_cases(ctx, t, nkeys, max_states=None, cursor_walks=True):
+def exhaustive_cases(ctx, t, nkeys, max_states=None, cursor_walks=True, light=False):
     rng = ctx.rng
     states = bfs_states(t, nkeys, max_states=max_states)
     ctx.notes.setdefault("exhaustive_scopes", []).append(
@@ -696,7 +711,10 @@ def exhaustive_cases(ctx, t, nkeys, max_states=None, cursor_walks=True):
         tail = []
         # every single operation from this structure, each on its own clone of the history
         for k in range(-1, nkeys + 1):
-            for op in ([INS, 0, k, 100 + k, 0], [INS, 0, k, 100 + k, 1], [DEL, 0, k], [DELX, 0, k, k + 1], [DELX, 0, k, 999], [GET, 0, k]):
+            ops = ([INS, 0, k, 100 + k, 0], [INS, 0, k, 100 + k, 1], [DEL, 0, k], [DELX, 0, k, k + 1], [DELX, 0, k, 999], [GET, 0, k])
+            if light:
+                ops = ([INS, 0, k, 100 + k, rng.randrange(2)], [DEL, 0, k] if rng.random() < 0.7 else [DELX, 0, k, k + 1])
+            for op in ops:
                 yield "exh", pre + [op, [DUMP, 0], [ITEMS, 0], [LEN, 0]]
         if cursor_walks:
             for k in range(-1, nkeys + 1):
@@ -734,8 +752,10 @@ def wfb_cases(ctx, histories):
     """feed the REAL node structure reached by some histories to the model's wf_b"""
     for case in histories:
         w = ImplWorld()
-        for op in case[1:]:
-            w.step(op)
+        try:
+            lib.with_watchdog(lambda: [w.step(op) for op in case[1:]], seconds=CASE_TIMEOUT)
+        except lib.Hang:
+            continue
         for tr in w.trees:
             if len(tr) <= 700:
                 yield "wfb", [30, tr.t, dump_node(tr.root)]
@@ -747,9 +767,9 @@ def cases(ctx):
     # exhaustive small scopes at t = 3
     yield from exhaustive_cases(ctx, 3, ctx.n(6, 7))
     if ctx.tier == "thorough":
-        yield from short_sequences(ctx, 3, 6, 4)
-        yield from exhaustive_cases(ctx, 3, 18, max_states=1500, cursor_walks=False)
-        ctx.notes["exhaustive_sequences"] = "all insert/delete sequences of length 4 over keys 0..5 at t=3; all reachable structures (any length) over keys 0..6"
+        yield from short_sequences(ctx, 3, 6, 3)
+        yield from exhaustive_cases(ctx, 3, 18, max_states=300, cursor_walks=False, light=True)
+        ctx.notes["exhaustive_sequences"] = "all insert/delete sequences of length 3 over keys 0..5 at t=3; all reachable structures (any history length) over keys 0..6 x every operation; first 300 structures over keys 0..17 (three levels)"
     else:
         yield from short_sequences(ctx, 3, 6, 2)
     ctx.notes["exhaustive"] = True
@@ -764,7 +784,7 @@ def cases(ctx):
         ctx.count(f"t:{t}")
         yield "hist-set" if set_kind else "hist", c
     # long histories (deep trees)
-    for t, ks, n in ((3, 3000, ctx.n(3000, 20000)), (4, 2000, ctx.n(2000, 10000)), (127, 40000, ctx.n(0, 45000))):
+    for t, ks, n in ((3, 3000, ctx.n(3000, 12000)), (4, 2000, ctx.n(2000, 8000)), (127, 6000, ctx.n(0, 9000))):
         if n:
             c = gen_history(rng, t, n, ks, cursors=True, clones=True)
             ctx.count(f"long:t{t}")
